@@ -89,6 +89,8 @@ def _impl_one(op):
         return canon.impl_print(mode, tname, cc, enc, data)
     if kind == "FRONT":
         return canon.impl_front(op[1], op[2])
+    if kind == "TRIM":
+        return canon.impl_trim(op[1], op[2])
     if kind == "VIA":
         return canon.impl_events_via(op[1], op[2], op[3], op[4], op[5])
     if kind == "OBJS":
@@ -113,6 +115,8 @@ def op_line(op):
         return canon.dec_op(mode, tname, cc, enc, data)
     if op[0] == "FRONT":
         return f"FRONT {op[1]} {op[2].hex() or '-'}"
+    if op[0] == "TRIM":
+        return "TRIM " + ";".join(bytes(p).hex() or "-" for p in op[1])
     if op[0] == "PRINT":
         return "PRINT" + canon.dec_op(*op[1:])[3:]
     if op[0] == "DECU":
